@@ -100,6 +100,9 @@ def supplied_values(cfg, dress, fseed):
             vals[i] = rng.randint(-9, 9)
         ics = {}
         for ic in cfg['ics']:
+            if ic['val'] == 0:
+                ics[ic['name']] = rng.choice([0.0, -0.0])        # a stated zero stays a zero in float dress
+                continue
             ics[ic['name']] = float(rng.randint(-10 ** 6, 10 ** 6)) if cfg['icform'] == 'int' else _rand_float(rng)
     if form == 'intscalar':
         v = int(exo['v']) if dress == 'int' else rng.randint(-99, 99)
@@ -561,6 +564,9 @@ def signature(clause, case, events, rnd):
         return head + 'exo:' + cfg['exo']['form']
     if clause == 'C10_ICVerbatim':
         off = [o['name'] for o in obs if not o['icv']]
+        vals = {ic['name']: ic['val'] for ic in cfg['ics']}
+        if off and all(vals.get(n) == 0 for n in off):
+            head += 'stated-zero:'
         if any(n.endswith('0') for n in off):
             head += 'name-ends-in-0:'
         bad = sorted({var_class(cfg, o['name']) for o in obs if not o['icv']})
@@ -645,7 +651,7 @@ def run(rep):
     cfgs = ['MC_Horizon_quick.cfg'] if rep.tier == 'quick' else ['MC_Horizon_quick.cfg', 'MC_Horizon_thorough.cfg']
     rep.rule = ('configurations = all initial states of the bounded Horizon instance (5 blueprints, three of them also under variable names ending in 0 / holding a 0 / differing by a trailing 0 (h1, h10) x exogenous form '
                 'and length x initial condition on none / each non-exogenous variable / all / the time axis t and t_minus_1 with and without an equation for t, as float, int or '
-                'undefined name x horizon x MaxTime in block / on solver before parsing / both with different values (solver wins, 0 included) / absent / in block and a larger or smaller value assigned to the solver after EquationSolver(block) or ParseString(block) x reduction on/off; plus histories of two blocks parsed one after the other into ONE solver object - first round with the horizon only in its block (ParseString or constructor, solved or only parsed) or written to the solver (before or late), second round with its own MaxTime line / none / solver written again / the kept solver value against another line), each solved by '
+                'undefined name, with the stated value non-zero or zero x horizon x MaxTime in block / on solver before parsing / both with different values (solver wins, 0 included) / absent / in block and a larger or smaller value assigned to the solver after EquationSolver(block) or ParseString(block) x reduction on/off; plus histories of two blocks parsed one after the other into ONE solver object - first round with the horizon only in its block (ParseString or constructor, solved or only parsed) or written to the solver (before or late), second round with its own MaxTime line / none / solver written again / the kept solver value against another line), each solved by '
                 'TLC and emitted; every one is replayed at block level with its integer values, a seeded sample again '
                 'with random float values and through the model API; distinct = distinct (history, api, dress, '
                 'float seed); non-trivial = horizon >= 1, or an initial condition, or a rejected input form')
